@@ -11,10 +11,16 @@
 //	probe <alertname> <sev>     -> <cfg>.<receiver>[,…] | none   who was notified of a NEW alert (posted through the API)
 //	reload <cfg> <fault> <via>  -> ok | err:<stage>              via http = POST /-/reload, api = App.Reload()
 //	status                      -> <cfg> | unknown               GET /api/v2/status → which configuration is served
-//	astatus <name>              -> tgt=<state>:<silencedBy ok 0|1>:<n inhibitedBy> src=<state>:<n silencedBy>:<n inhibitedBy>
+//	astatus <name>              -> tgt=<state>:<silencedBy ok 0|1>:<n inhibitedBy> src=<state>:<n silencedBy>:<n inhibitedBy> grp=… flt=<roles>:<roles>:<roles>
 //	                               what GET /api/v2/alerts reports for an alert that is BOTH inhibited (by the src alert,
-//	                               rule role=src > role=tgt equal alertname) and silenced (a silence on it alone)
+//	                               rule role=src > role=tgt equal alertname) and silenced (a silence on it alone); flt = the roles
+//	                               (src, tgt) listed by GET …?inhibited=false, …?silenced=false, …?active=false
+//	starttorn <cfg> <cut>       -> refused:<stage> file=same|changed | started file=same|changed
+//	                               a notification-log snapshot of 3 records minus its last <cut> bytes lies in the data directory
 //	stop                        -> ok
+//
+// reload variants: fault `big` = a valid configuration with thousands of routes; via `hammer` = App.Reload() with status
+// requests in flight while the configuration is swapped (see the op).
 //
 // Every configuration routes to its own webhook paths (/hook/<cfg>/<receiver>),
 // so which configuration is in force is observed behaviourally; its receivers
@@ -42,9 +48,11 @@ import (
 	"path/filepath"
 	"regexp"
 	"sort"
+	"strconv"
 	"strings"
 	"sync"
 	"sync/atomic"
+	"syscall"
 	"testing"
 	"time"
 
@@ -57,6 +65,8 @@ import (
 	"github.com/prometheus/alertmanager/dispatch"
 	"github.com/prometheus/alertmanager/featurecontrol"
 	"github.com/prometheus/alertmanager/matcher/compat"
+	"github.com/prometheus/alertmanager/nflog"
+	"github.com/prometheus/alertmanager/nflog/nflogpb"
 
 	"verif/harness/hx"
 )
@@ -133,6 +143,12 @@ func (w *world) configText(id, fault string) string {
 	}
 	fmt.Fprintf(&b, "# configuration %s\nroute:\n  receiver: %s-r0\n  group_by: [alertname]\n  group_wait: 100ms\n  group_interval: %s\n  repeat_interval: 4h\n", id, id, interval)
 	fmt.Fprintf(&b, "  routes:\n    - matchers: [ sev=\"x\" ]\n      receiver: %s\n", child)
+	if fault == "big" {
+		// a valid configuration whose textual form takes a while to produce (GET /api/v2/status marshals it)
+		for i := 0; i < bigRoutes; i++ {
+			fmt.Fprintf(&b, "    - matchers: [ filler=\"v%d\", filler2=~\"w%d.*\" ]\n      receiver: %s-r0\n      group_by: [ alertname, filler, f%d ]\n", i, i, id, i)
+		}
+	}
 	b.WriteString("inhibit_rules:\n  - source_matchers: [ role=\"src\" ]\n    target_matchers: [ role=\"tgt\" ]\n    equal: [ alertname ]\n")
 	b.WriteString("receivers:\n")
 	for _, r := range []string{"r0", "r1"} {
@@ -169,10 +185,22 @@ func (w *world) write(id, fault string) {
 	if err := os.WriteFile(w.cfgPath, []byte(txt), 0o600); err != nil {
 		panic(err)
 	}
-	if fault == "none" || fault == "template-ok" {
+	if validVariant(fault) {
 		w.texts[id] = txt
 	}
 }
+
+// validVariant: the configuration variants that are valid (a reload with them must be accepted).
+func validVariant(fault string) bool { return fault == "none" || fault == "template-ok" || fault == "big" }
+
+// bigRoutes: number of filler routes of the `big` variant; hammerRequests status requests are sent hammerLead before
+// the parked reload is let go (the text of a big configuration takes several times hammerLead to produce).
+const (
+	bigRoutes      = 3000
+	hammerRequests = 4
+	hammerLead     = 8 * time.Millisecond
+	hammerRounds   = 1
+)
 
 // stage names the step at which the implementation rejected the configuration.
 func (w *world) stage(msg string) string {
@@ -212,6 +240,26 @@ func (w *world) post(path, ctype string, body []byte) (int, []byte, error) {
 	return resp.StatusCode, b, nil
 }
 
+// newApp: the application on a loopback port, cluster off, with the world's configuration file and the given data directory.
+func (w *world) newApp(dataDir string) (*app.App, error) {
+	logger := promslog.NewNopLogger()
+	ff, err := featurecontrol.NewFlags(logger, "")
+	if err != nil {
+		return nil, err
+	}
+	compat.InitFromFlags(logger, ff)
+	addrs := []string{"127.0.0.1:0"}
+	systemd, webCfg := false, ""
+	opts := app.DefaultOptions()
+	opts.ConfigFile = w.cfgPath
+	opts.DataDir = dataDir
+	opts.WebConfig = &web.FlagConfig{WebListenAddresses: &addrs, WebSystemdSocket: &systemd, WebConfigFile: &webCfg}
+	opts.Logger = logger
+	opts.Registerer = prometheus.NewRegistry()
+	opts.Flagger = ff
+	return app.New(opts)
+}
+
 func (w *world) exec(line string) string {
 	t := strings.Fields(line)
 	switch t[0] {
@@ -222,24 +270,10 @@ func (w *world) exec(line string) string {
 			return "err:already"
 		}
 		w.write(t[1], "none")
-		logger := promslog.NewNopLogger()
-		ff, err := featurecontrol.NewFlags(logger, "")
-		if err != nil {
-			return "err:flags"
-		}
-		compat.InitFromFlags(logger, ff)
-		addrs := []string{"127.0.0.1:0"}
-		systemd, webCfg := false, ""
-		opts := app.DefaultOptions()
-		opts.ConfigFile = w.cfgPath
-		opts.DataDir = filepath.Join(w.dir, "data")
-		opts.WebConfig = &web.FlagConfig{WebListenAddresses: &addrs, WebSystemdSocket: &systemd, WebConfigFile: &webCfg}
-		opts.Logger = logger
-		opts.Registerer = prometheus.NewRegistry()
-		opts.Flagger = ff
 		var a *app.App
+		var err error
 		for attempt := 0; attempt < 3; attempt++ { // a failed bind on an ephemeral port is retried
-			a, err = app.New(opts)
+			a, err = w.newApp(filepath.Join(w.dir, "data"))
 			if err == nil {
 				break
 			}
@@ -259,6 +293,57 @@ func (w *world) exec(line string) string {
 			}
 		}
 		return "err:unhealthy"
+	case "starttorn":
+		// a notification-log snapshot of three records, cut inside its last record, lies in the data directory: the application
+		// must refuse to start (the file is not a snapshot the code ever wrote) and must leave the file alone
+		if w.a != nil {
+			return "err:already"
+		}
+		w.write(t[1], "none")
+		cut, _ := strconv.Atoi(t[2])
+		dataDir := filepath.Join(w.dir, "data-torn")
+		if err := os.MkdirAll(dataDir, 0o777); err != nil {
+			return "err:mkdir"
+		}
+		l, err := nflog.New(nflog.Options{Retention: 120 * time.Hour, Metrics: prometheus.NewRegistry()})
+		if err != nil {
+			return "err:nflog-new"
+		}
+		for i := 0; i < 3; i++ {
+			rcv := &nflogpb.Receiver{GroupName: t[1] + "-r0", Integration: "webhook", Idx: 0}
+			if err := l.Log(rcv, fmt.Sprintf("{}:{alertname=\"torn%d\"}", i), []uint64{uint64(i + 1), uint64(i + 101)}, nil, nflog.NewStore(nil), 0); err != nil {
+				return "err:nflog-log"
+			}
+		}
+		var snap bytes.Buffer
+		if _, err := l.Snapshot(&snap); err != nil || snap.Len() < 3*30 || cut < 1 || cut > 25 {
+			return "err:nflog-snapshot"
+		}
+		torn := snap.Bytes()[:snap.Len()-cut]
+		file := filepath.Join(dataDir, "nflog")
+		if err := os.WriteFile(file, torn, 0o600); err != nil {
+			return "err:write"
+		}
+		same := func() string {
+			if now, err := os.ReadFile(file); err == nil && bytes.Equal(now, torn) {
+				return "file=same"
+			}
+			return "file=changed"
+		}
+		a, err := w.newApp(dataDir)
+		if err != nil {
+			if strings.Contains(err.Error(), "notification log") {
+				return "refused:nflog " + same()
+			}
+			return "refused:" + w.stage(err.Error()) + " " + same()
+		}
+		// it started: run it and shut it down in the ordinary way (the shutdown snapshot is what makes the loss permanent)
+		res := "started"
+		if err := a.Start(); err != nil {
+			res = "started:start-err"
+		}
+		_ = a.Stop(context.Background())
+		return res + " " + same()
 	case "probe":
 		if w.a == nil {
 			return "noapp"
@@ -370,6 +455,82 @@ func (w *world) exec(line string) string {
 			w.mu.Unlock()
 			sort.Strings(who)
 			return "ok " + hx.Join(who, ",")
+		}
+		if t[3] == "hammer" {
+			// status requests are in flight while the reload is applied.  The configuration names a template file that is a
+			// FIFO: reloader.reload parks reading it (its first step), the status requests are sent, then the template text
+			// is written and the reload goes on to swap the configuration while the requests are still being answered
+			// (the text of a `big` configuration takes long to produce).  Afterwards `status` must serve the new one.
+			fifo := filepath.Join(w.dir, "tmpl-"+t[1]+".fifo")
+			_ = os.Remove(fifo)
+			if err := syscall.Mkfifo(fifo, 0o600); err != nil {
+				return "err:mkfifo"
+			}
+			txt := w.configText(t[1], t[2]) + fmt.Sprintf("templates:\n  - %s\n", fifo)
+			if err := os.WriteFile(w.cfgPath, []byte(txt), 0o600); err != nil {
+				panic(err)
+			}
+			if validVariant(t[2]) {
+				w.texts[t[1]] = txt
+			}
+			content := []byte("{{/* verif: template text behind a slow file */}}\n")
+			done := make(chan error, 1)
+			go func() { done <- w.a.Reload() }()
+			var wg sync.WaitGroup
+			var rerr error
+			finished, held := false, false
+			// feed: once the reloader has the FIFO open for reading, write the text (after `hold`, if given)
+			feed := func(hold func()) {
+				fd, err := syscall.Open(fifo, syscall.O_WRONLY|syscall.O_NONBLOCK, 0)
+				if err != nil {
+					return // nobody reads it (yet)
+				}
+				if hold != nil {
+					hold()
+				}
+				_, _ = syscall.Write(fd, content)
+				_ = syscall.Close(fd)
+			}
+			for deadline := time.Now().Add(60 * time.Second); !finished && time.Now().Before(deadline); {
+				select {
+				case rerr = <-done:
+					finished = true
+					continue
+				default:
+				}
+				if !held {
+					feed(func() {
+						held = true
+						for i := 0; i < hammerRequests; i++ {
+							wg.Add(1)
+							go func() { defer wg.Done(); _, _, _ = w.get("/api/v2/status") }()
+						}
+						time.Sleep(hammerLead)
+					})
+				} else {
+					feed(nil) // the file is read once per template set (text, html): serve every further read at once
+				}
+				if !held {
+					time.Sleep(500 * time.Microsecond)
+				} else {
+					time.Sleep(100 * time.Microsecond)
+				}
+			}
+			if !finished {
+				// unblock a reader that may still be parked, then give up
+				feed(nil)
+				select {
+				case rerr = <-done:
+				case <-time.After(30 * time.Second):
+					return "err:hung"
+				}
+			}
+			wg.Wait()
+			_ = os.Remove(fifo)
+			if rerr != nil {
+				return "err:" + w.stage(rerr.Error())
+			}
+			return "ok"
 		}
 		if t[3] == "api" {
 			if err := w.a.Reload(); err != nil {
@@ -504,7 +665,25 @@ func (w *world) exec(line string) string {
 				}
 			}
 		}
-		return out + " " + grp
+		// visibility follows the reported status: the query flags inhibited=false / silenced=false / active=false are three
+		// independent exclusions (which of the two alerts does each request list?)
+		flt := func(flag string) string {
+			code, body, err := w.get("/api/v2/alerts?filter=" + "alertname%3D%22" + name + "%22&" + flag + "=false")
+			if err != nil || code != 200 {
+				return "err"
+			}
+			var as []gettable
+			if json.Unmarshal(body, &as) != nil {
+				return "err"
+			}
+			var roles []string
+			for i := range as {
+				roles = append(roles, as[i].Labels["role"])
+			}
+			sort.Strings(roles)
+			return hx.Join(roles, ",")
+		}
+		return out + " " + grp + " flt=" + flt("inhibited") + ":" + flt("silenced") + ":" + flt("active")
 	case "stop":
 		if w.a == nil {
 			return "noapp"
@@ -644,12 +823,12 @@ func TestInner(t *testing.T) {
 		for _, f := range faults {
 			c := cfg()
 			lines = append(lines, fmt.Sprintf("reload %s %s %s", c, f, hx.Pick(r, vias)))
-			if f != "none" && f != "template-ok" && (id <= len(reloadFaults) || r.IntN(2) == 0) {
+			if !validVariant(f) && (id <= len(reloadFaults) || r.IntN(2) == 0) {
 				// the operator retries the very same file: rejected once, rejected again
 				lines = append(lines, fmt.Sprintf("reload %s %s %s", c, f, hx.Pick(r, vias)))
 			}
 			lines = append(lines, "status", probe(hx.Pick(r, []string{"-", "x"})))
-			if f != "none" && f != "template-ok" {
+			if !validVariant(f) {
 				// the inhibitor and silencer of the configuration in force are still the ones answering
 				lines = append(lines, fmt.Sprintf("astatus s%d-%s", id, c))
 			}
@@ -661,9 +840,27 @@ func TestInner(t *testing.T) {
 			c := cfg()
 			lines = append(lines, fmt.Sprintf("reload %s none slow", c), "status", probe("x"))
 		}
+		// status requests in flight while a reload is applied (the first ones since the previous reload); the configuration
+		// they start under is a big one
+		for range hammerRounds {
+			big, nxt := cfg(), cfg()
+			lines = append(lines, fmt.Sprintf("reload %s big %s", big, hx.Pick(r, vias)), fmt.Sprintf("reload %s none hammer", nxt), "status")
+		}
 		lines = append(lines, fmt.Sprintf("astatus s%d-1", id), "stop")
 		runCase(t, tr, repo, fmt.Sprintf("case %d kind=reload", id), lines)
 	}
+	// a torn notification-log snapshot in the data directory: the application refuses to start
+	torn := func() {
+		id++
+		runCase(t, tr, repo, fmt.Sprintf("case %d kind=torn", id), []string{fmt.Sprintf("starttorn c1 %d", 1+r.IntN(20))})
+	}
+	if os.Getenv("VERIF_RELOAD_ONLY") == "torn" {
+		for range hx.Cases(3, 12) {
+			torn()
+		}
+		return
+	}
+	torn()
 	// every stage at which a reload can be rejected, each followed by a valid reload that must take effect
 	for _, f := range reloadFaults {
 		scenario([]string{f, "none"})
